@@ -15,13 +15,17 @@ ASSUMPTIONS = [
     "message types are integers in [0, 40]; 2 senders, 2 destinations (one registered late)",
     "time.sleep rebound to a no-op in pydcop.infrastructure.agents / communication (timing is not observed)",
 ]
-BOUNDS = {"quick": "(A) histories of <= 4 operations over 6 operation kinds, (B) <= 3 posts", "thorough": "(A) histories of <= 5 operations, (B) <= 4 posts"}
+BOUNDS = {"quick": "(A) histories of <= 4 operations over 6 operation kinds; histories of <= 8 operations {post, single hand-over} between one sender and one destination with one symbolic type, (B) <= 3 posts", "thorough": "(A) histories of <= 5 operations, (B) <= 4 posts"}
 OUTSIDE = "thread interleavings inside post_msg/next_msg, the HTTP transport, remote destinations"
 CAP_S = {"quick": 900, "thorough": 7200}
 
 
 def jobs(tier):
     return [{"name": "messaging-histories", "kind": "A", "length": 4 if tier == "quick" else 5},
+            # long histories of posts between one sender and one destination, all with the same (symbolic) type, and single
+            # hand-overs: backlog, partial drain, more posts (the sequence number alone orders the queue)
+            {"name": "backlog-same-type", "kind": "A", "length": 8 if tier == "quick" else 10, "ops": ["post_s0_d0", "next"],
+             "one_type": True},
             {"name": "agent-clean-shutdown", "kind": "B", "posts": 3 if tier == "quick" else 4}]
 
 
@@ -59,7 +63,8 @@ def run_messaging(eng, p):
     late_registered, shut = False, False
     queue, waiting, posted, delivered, hist = [], [], [], [], []
     n = eng.choose(p["length"], "length") + 1
-    ops = ["post_s0_d0", "post_s1_d0", "post_s0_d1", "register_d1", "next", "shutdown"]
+    ops = p.get("ops") or ["post_s0_d0", "post_s1_d0", "post_s0_d1", "register_d1", "next", "shutdown"]
+    shared_type = eng.sym_int("type_all", 0, 40) if p.get("one_type") else None
     try:
         for step in range(n + 1):
             final = step == n
@@ -67,7 +72,7 @@ def run_messaging(eng, p):
             hist.append(op)
             if op.startswith("post"):
                 _, s, d = op.split("_")
-                t = eng.sym_int("type_%d" % len(posted), 0, 40)
+                t = shared_type if shared_type is not None else eng.sym_int("type_%d" % len(posted), 0, 40)
                 idx = len(posted)
                 entry = (s, d, idx, t)
                 posted.append((entry, shut))
